@@ -277,6 +277,85 @@ func TestC01(t *testing.T) {
 	// Self-check of the reference on the spec's own examples.
 	selfcheckRef(t)
 
+	// (R) stop after an event, then range over the same sequence again: the reader hands over one
+	// complete event block per Read, so nothing was read ahead, and the second pass is a reading of
+	// the rest of the stream (with the last event ID reached so far)
+	nR := r.N(600, 12000)
+	for i := 0; i < nR; i++ {
+		if !r.Mine("R", i) {
+			continue
+		}
+		key := fw.Key("R", i)
+		rng := r.Rand("R", i)
+		nb := 2 + rng.IntN(7)
+		var blocks []string
+		for k := 0; k < nb; k++ {
+			switch rng.IntN(5) {
+			case 0:
+				blocks = append(blocks, fmt.Sprintf("id: i%d\ndata: e%d\n\n", k, k))
+			case 1:
+				blocks = append(blocks, fmt.Sprintf("event: t%d\ndata: e%d\ndata: more\n\n", k, k))
+			case 2:
+				blocks = append(blocks, fmt.Sprintf("event: only-a-type-%d\n\n", k))
+			case 3:
+				blocks = append(blocks, fmt.Sprintf(": note\ndata: e%d\r\n\r\n", k))
+			default:
+				blocks = append(blocks, fmt.Sprintf("data: e%d\n\n", k))
+			}
+		}
+		stopAt := rng.IntN(nb - 1)
+		whole := strings.Join(blocks, "")
+		var cuts []int
+		off := 0
+		for _, b := range blocks[:nb-1] {
+			off += len(b)
+			cuts = append(cuts, off)
+		}
+		r.Begin(key, fmt.Sprintf("resume after event %d of %q", stopAt, whole))
+		rd := &mon.ChunkReader{Data: whole, Cuts: cuts}
+		seq := sse.Read(rd, nil)
+		var first, second []obsEvent
+		var secondErr error
+		panicked := ""
+		func() {
+			defer func() {
+				if p := recover(); p != nil {
+					panicked = fmt.Sprint(p)
+				}
+			}()
+			seq(func(e sse.Event, err error) bool {
+				if err != nil {
+					return false
+				}
+				first = append(first, obsEvent{strings.Clone(e.LastEventID), strings.Clone(e.Type), strings.Clone(e.Data)})
+				return len(first)-1 < stopAt
+			})
+			seq(func(e sse.Event, err error) bool {
+				if err != nil {
+					secondErr = err
+					return false
+				}
+				second = append(second, obsEvent{strings.Clone(e.LastEventID), strings.Clone(e.Type), strings.Clone(e.Data)})
+				return true
+			})
+		}()
+		r.Count("resumed_reads", 1)
+		r.Eval(fw.Hash("R", whole, strconv.Itoa(stopAt)), true)
+		wantFirst := refEvents(ref.Interpret(strings.Join(blocks[:stopAt+1], ""), ref.Opts{Adapt: true}))
+		lastID := ""
+		if len(wantFirst) > 0 {
+			lastID = wantFirst[len(wantFirst)-1].ID
+		}
+		wantSecond := refEvents(ref.Interpret(strings.Join(blocks[stopAt+1:], ""), ref.Opts{Adapt: true, InitialID: lastID}))
+		// whether the last event ID of the first pass carries over into the second is not fixed by the
+		// statement: both readings are accepted
+		wantSecondFresh := refEvents(ref.Interpret(strings.Join(blocks[stopAt+1:], ""), ref.Opts{Adapt: true}))
+		if panicked != "" || secondErr != nil || !eqEvents(first, wantFirst) || !(eqEvents(second, wantSecond) || eqEvents(second, wantSecondFresh)) {
+			r.Violation(key, []string{"resumed_read_differs"}, map[string]any{"stream": whole, "stop_after_event": stopAt, "first_pass": fmtEvents(first), "second_pass": fmtEvents(second), "want_second_pass": fmtEvents(wantSecond), "panic": panicked, "second_pass_error": fmt.Sprint(secondErr)},
+				"C01 read: after stopping at event %d, a second pass over the same sequence yields %v (error %v, panic %q), want the events of the rest of the stream %v", stopAt, fmtEvents(second), secondErr, panicked, fmtEvents(wantSecond))
+		}
+	}
+
 	// (A) hand-built streams: all cuts, all stops.
 	for i, in := range c01Hand {
 		if r.Mine("A", i) {
